@@ -5,6 +5,7 @@ from ref import pools
 ID = "C04"
 LEVEL = "exploration"
 CONFIGS = {"quick": ["san"], "thorough": ["san", "san_nv", "mx_i64", "mx_w2"]}
+EXTRA_BUILDS = ["sg13", "sg199"]
 RULE = ("single key operations on pool keys x pool tweaks (0, n-d, >= n, lambda-split boundaries), histories of mixed negate/add/mul/x-only/keypair "
         "tweaks carried in lock-step on the secret and the public side against an integer/point model, combine on 1..200 keys with duplicates "
         "and cancelling pairs at every position, cmp/sort on lists of 0..200 keys with duplicates and negated pairs. non-trivial = every record "
@@ -259,6 +260,8 @@ def wl_sort(ctx, config):
             if c2 is not None: ctx.check(sign(c2.ret) == (a[1:] > b[1:]) - (a[1:] < b[1:]), "xonly_cmp:order", "%s vs %s -> %d" % (a.hex(), b.hex(), c2.ret), config)
 
 def run(ctx):
+    from vlib import smallgroup
+    smallgroup.run(ctx, 'misc', {'tweak_reenc': 'accepted'})
     for config in ctx.configs:
         wl_single(ctx, config)
         wl_history(ctx, config)
